@@ -293,7 +293,63 @@ def is_verbose_print_block(s):
     return isinstance(s, ast.If) and not s.orelse and ast.unparse(s.test) == "verbose" and only_prints(s.body)
 
 
-def post_solve_plan(fn):
+def _eq_test(t, var):
+    """`var == "lit"` -> lit"""
+    if isinstance(t, ast.Compare) and len(t.ops) == 1 and isinstance(t.ops[0], ast.Eq) and isinstance(t.left, ast.Name) \
+            and t.left.id == var and isinstance(t.comparators[0], ast.Constant) and isinstance(t.comparators[0].value, str):
+        return t.comparators[0].value
+    return None
+
+
+def _ret_name(body, lineno):
+    if len(body) == 1 and isinstance(body[0], ast.Return) and isinstance(body[0].value, ast.Name):
+        return body[0].value.id
+    raise Bad("line %d: a branch of the return switch must be a single `return <name>`" % lineno)
+
+
+def return_switch(stmts, var):
+    """the switch on the option `var` that ends a function, in either spelling
+         if var == "a": return x  elif var == "b": return y  else: raise E(..)          (one statement)
+         if var == "a": return x;  if var == "b": return y;  raise E(..)                (guards, then the raise)
+       `stmts` must be exactly the statements of the switch (nothing after it).
+       Returns ([(literal, returned name)], E)."""
+    if not stmts:
+        raise Bad("no return switch on %s" % var)
+    cases = []
+    if len(stmts) == 1:
+        node = stmts[0]
+        while True:
+            lit = _eq_test(node.test, var) if isinstance(node, ast.If) else None
+            if lit is None:
+                raise Bad("line %d: return switch: test outside the grammar" % node.lineno)
+            cases.append((lit, _ret_name(node.body, node.lineno)))
+            if len(node.orelse) == 1 and isinstance(node.orelse[0], ast.If):
+                node = node.orelse[0]
+                continue
+            if len(node.orelse) == 1 and isinstance(node.orelse[0], ast.Raise):
+                return cases, raised(node.orelse[0])
+            raise Bad("line %d: return switch: the chain must end with `else: raise <Class>(...)` "
+                      "(a fall-through would return None)" % node.lineno)
+    for st in stmts[:-1]:
+        lit = _eq_test(st.test, var) if isinstance(st, ast.If) and not st.orelse else None
+        if lit is None:
+            raise Bad("line %d: return switch: expected `if %s == \"..\": return <name>` without else" % (st.lineno, var))
+        cases.append((lit, _ret_name(st.body, st.lineno)))
+    if not isinstance(stmts[-1], ast.Raise):
+        raise Bad("line %d: return switch: the guards must be followed by `raise <Class>(...)` "
+                  "(a fall-through would return None)" % stmts[-1].lineno)
+    return cases, raised(stmts[-1])
+
+
+def switch_start(body, var):
+    """index of the first top-level statement that tests `var == ..`"""
+    for i, st in enumerate(body):
+        if isinstance(st, ast.If) and _eq_test(st.test, var) is not None:
+            return i
+    return None
+
+
+def post_solve_plan(fn, writer_names=()):
     """top-level statements of _solve_with_wrapper from the first wrapper.solve on"""
     body = body_of(fn)
     idx = None
@@ -304,26 +360,33 @@ def post_solve_plan(fn):
     if idx is None:
         raise Bad("no top-level `... = wrapper.solve(**kwargs)` in _solve_with_wrapper")
     tgt = body[idx].targets[0]
-    if not (isinstance(tgt, ast.Tuple) and len(tgt.elts) == 3 and isinstance(tgt.elts[2], ast.Name)
-            and tgt.elts[2].id == "wc_value"):
-        raise Bad("line %d: expected `solver_status, solver_name, wc_value = wrapper.solve(..)`" % body[idx].lineno)
+    if not (isinstance(tgt, ast.Tuple) and len(tgt.elts) == 3 and isinstance(tgt.elts[2], ast.Name)):
+        raise Bad("line %d: expected `<status>, <name>, <value> = wrapper.solve(..)`" % body[idx].lineno)
+    val = tgt.elts[2].id                      # the solver's value (wc_value), bound from the source
+    dual = None                               # the name bound to self.check_feasibility(..)
     # nothing before the solver call may write values / duals
     for s in body[:idx]:
         for n in ast.walk(s):
             cn = call_name(n)
-            if cn and cn.split(".")[-1] in ("assign_dual_values", "_eval_points_and_function_values", "check_feasibility"):
+            if cn and cn.split(".")[-1] in ("assign_dual_values", "_eval_points_and_function_values",
+                                            "check_feasibility") + tuple(writer_names):
                 raise Bad("line %d: %s is called before the solver" % (s.lineno, cn))
     plan = ["PSolve"]
-    for s in body[idx + 1:]:
+    tail = body[idx + 1:]
+    sw = switch_start(tail, "return_primal_or_dual")
+    if sw is None:
+        raise Bad("no `if return_primal_or_dual == ..` switch after the solver call")
+    cases, exn = return_switch(tail[sw:], "return_primal_or_dual")
+    for s in tail[:sw]:
         if is_verbose_print_block(s):
             plan.append("PPrint")
             continue
-        if isinstance(s, ast.If) and ast.unparse(s.test) == "wc_value is None" and not s.orelse:
+        if isinstance(s, ast.If) and ast.unparse(s.test) == "%s is None" % val and not s.orelse:
             rest = [x for x in s.body if not is_verbose_print_block(x)]
-            if len(rest) == 1 and isinstance(rest[0], ast.Return) and ast.unparse(rest[0].value) == "wc_value":
+            if len(rest) == 1 and isinstance(rest[0], ast.Return) and ast.unparse(rest[0].value) == val:
                 plan.append("PGuardNone")
                 continue
-            raise Bad("line %d: the `wc_value is None` branch must only print and `return wc_value`" % s.lineno)
+            raise Bad("line %d: the `%s is None` branch must only print and `return %s`" % (s.lineno, val, val))
         calls = [call_name(n) for n in ast.walk(s) if isinstance(n, ast.Call)]
         calls = [c for c in calls if c]
         if isinstance(s, ast.Assign) and call_name(s.value) == "wrapper.assign_dual_values":
@@ -339,15 +402,23 @@ def post_solve_plan(fn):
             plan.append("PStoreGF")
         elif isinstance(s, ast.Expr) and call_name(s.value) == "self._eval_points_and_function_values":
             plan.append("PEvalPoints")
-        elif isinstance(s, ast.Assign) and call_name(s.value) == "self.check_feasibility":
+        elif isinstance(s, ast.Assign) and call_name(s.value) == "self.check_feasibility" and len(s.targets) == 1 \
+                and isinstance(s.targets[0], ast.Name):
+            dual = s.targets[0].id
             plan.append("PCheckFeasibility")
-        elif isinstance(s, ast.If) and ast.unparse(s.test).startswith("return_primal_or_dual =="):
-            plan.append("PReturnChoice")
-        elif isinstance(s, ast.Return):
-            plan.append("PReturnChoice")
         else:
             raise Bad("line %d: statement after the solver call outside the grammar: %s" %
                       (s.lineno, ast.unparse(s).split("\n")[0][:60]))
+    # what each branch of the switch returns: "dual" the result of check_feasibility, "primal" the solver's value
+    want = {"dual": dual, "primal": val}
+    for lit, name in cases:
+        if lit not in want:
+            raise Bad("return switch: literal %r has no modelled meaning" % lit)
+        if want[lit] is None or name != want[lit]:
+            raise Bad("return switch: the %r branch returns `%s`, expected `%s`" % (lit, name, want[lit]))
+    if len(set(l for l, _ in cases)) != len(cases):
+        raise Bad("return switch: a literal is tested twice")
+    plan.append("PReturnChoice")
     return plan
 
 
@@ -416,7 +487,8 @@ def translate():
                     elif isinstance(n, (ast.AugAssign, ast.AnnAssign)):
                         tg = [n.target]
                     for t in tg:
-                        if isinstance(t, ast.Attribute) and t.attr in ("_value", "_dual_variable_value"):
+                        if isinstance(t, ast.Attribute) and t.attr in ("_value", "_dual_variable_value",
+                                                                       "entries_dual_variable_value"):
                             mine = isinstance(t.value, ast.Name) and t.value.id == "self"
                             if mine and fn.name in ("__init__", "eval", "eval_dual"):
                                 continue
@@ -435,7 +507,7 @@ def translate():
     L.append("Definition handlers : list (string * string * acc_shape) := [\n  %s\n]." % ";\n  ".join(
         "(%s, %s, h_%s_%s)" % (cstr(a), cstr(b), a, b) for a, b in names))
     L.append("")
-    L.append("(** functions that assign `_value` / `_dual_variable_value` of DSL objects (constructors and the accessors' own caches excluded) *)")
+    L.append("(** functions that assign `_value` / `_dual_variable_value` / `entries_dual_variable_value` of DSL objects (constructors and the accessors' own caches excluded) *)")
     L.append("Definition value_writers : list (string * string) := [%s]." % "; ".join(
         "(%s, %s)" % (cstr(a), cstr(b)) for a, b in writers))
     L.append("(** every call site of such a function: (callee, file:caller) *)")
@@ -456,7 +528,7 @@ def translate():
         status["options"] = "PEP._solve_with_wrapper not found"
     else:
         try:
-            plan = post_solve_plan(sw)
+            plan = post_solve_plan(sw, sorted(wnames))
             L.append("(** top-level statements of PEP._solve_with_wrapper from the first solver call on *)")
             L.append("Definition post_solve_plan : list pstep := [%s]." % "; ".join(plan))
             status["plan"] = True
@@ -465,13 +537,12 @@ def translate():
         try:
             body = body_of(sw)
             solve_idx = [i for i, s in enumerate(body) if isinstance(s, ast.Assign) and call_name(s.value) == "wrapper.solve"]
-            ret = [(i, s) for i, s in enumerate(body) if isinstance(s, ast.If)
-                   and ast.unparse(s.test).startswith("return_primal_or_dual ==")]
-            if len(ret) != 1:
-                raise Bad("expected one top-level `if return_primal_or_dual == ...` chain")
-            acc, pre, exn = option_chain(ret[0][1], "return_primal_or_dual")
-            if pre:
-                raise Bad("prefix test on return_primal_or_dual")
+            sw = switch_start(body, "return_primal_or_dual")
+            if sw is None:
+                raise Bad("no top-level switch on return_primal_or_dual")
+            cases, exn = return_switch(body[sw:], "return_primal_or_dual")
+            acc = [l for l, _ in cases]
+            ret = [(sw, body[sw])]
             L.append("(** return_primal_or_dual: accepted literals, exception of the else branch, checked before the solver runs? *)")
             L.append("Definition opt_return : option_check := {| accepted := [%s] ; prefixes := [] ; rejected_with := %s ; "
                      "checked_before_solve := %s |}." % ("; ".join(cstr(a) for a in acc), exn_term(exn),
